@@ -142,6 +142,22 @@ Proof.
   repeat split; try reflexivity. intros H. inversion H as [|x l Hn _]; subst. apply Hn. left; reflexivity.
 Qed.
 
+(* the same defect through Delete once it removes the index entry (fix F1, [delidx := true]): Set 7 2 has already
+   chosen partition 1 for its in-place write when Delete 7 removes the key and its index entry; the write puts the
+   key back without an index entry, so the next Set 7 3 inserts it a second time (no two Sets overlap) *)
+Example C08_duplicate_key_set_delete :
+  match run Nat.eqb 0 (fixed_cfg 2 1) (@init nat nat)
+          [LSpawn (OSet 7 1); LStep 1; LStep 1; LStep 1; LStep 1; LStep 1;
+           LSpawn (OSet 7 2); LStep 3; LStep 3; LStep 3;
+           LSpawn (ODelete 7); LStep 4; LStep 4; LStep 4; LStep 4; LStep 4; LStep 4;
+           LStep 3;
+           LSpawn (OSet 7 3); LStep 5; LStep 5; LStep 5; LStep 5; LStep 5;
+           LStep 2; LStep 2; LStep 6; LStep 6] with
+  | Some s => quiescent s && (length (keys_now s) =? 2) && forallb (Nat.eqb 7) (keys_now s)
+  | None => false
+  end = true.
+Proof. vm_compute. reflexivity. Qed.
+
 (* K1: a Get that is about to read the field f.partitions without any lock (thread 3) while Clear (thread 4) is
    about to take the write lock and overwrite that field: both steps are enabled in the same state and no common
    lock orders them.  After Clear's first step the same holds for f.valuePartitionIndex (written by Clear under the
